@@ -674,6 +674,7 @@ def _c():
     else:
         b = False
     R.log.append(("c", b))
+    R.hook("cond", None)      # a call site inside the body: branch conditions
     return b
 
 
@@ -682,6 +683,7 @@ def _v():
     R.tick()
     R.vcount += 1
     R.log.append(("v", R.vcount))
+    R.hook("value", None)     # e.g. `return v()` inside a with body
     return 1000 + R.vcount
 
 
@@ -727,7 +729,21 @@ def trap(k):
 
 
 class _NS(object):
-    pass
+    """`with ... as ns.aN`: the store happens after __enter__ returned (manager already active)."""
+
+    def __setattr__(self, name, value):
+        R = _CUR[0]
+        if R is not None:
+            R.hook("store", None)
+        object.__setattr__(self, name, value)
+
+
+class _D(dict):
+    def __setitem__(self, key, value):
+        R = _CUR[0]
+        if R is not None:
+            R.hook("store", None)
+        dict.__setitem__(self, key, value)
 
 
 def mgr_label(m):
@@ -1006,7 +1022,7 @@ def M(kind, site, owner="main"):
 
 def make_namespace():
     return {"c": _c, "v": _v, "r": _r, "probe": _probe, "R": _R, "M": M, "E1": E1, "E2": E2,
-            "trap": trap, "hold": _hold, "sn": _sn, "ns": _NS(), "d": {}, "__name__": "progs_gen"}
+            "trap": trap, "hold": _hold, "sn": _sn, "ns": _NS(), "d": _D(), "__name__": "progs_gen"}
 
 
 _COMPILED = {}
@@ -1535,12 +1551,14 @@ TIERS = {
     # (exhaustive below that, see explore); running_stride: the running leg (3x dearer per
     # observation) takes every n-th program; deadline: seconds after which a leg stops early
     # and reports truncated=True.
+    # throw_every / throw_k / throw_runs: every n-th program is also resumed with throw(E1) at each
+    # of its first throw_k suspensions, exploring up to throw_runs branch vectors each.
     "quick": dict(special_stride=12, matrix_stride=41, enum={2: 1, 3: 12}, random=26, max_nodes=(6, 12), max_runs=24,
-                  throw_every=3, running_stride=4, deadline=36.0),
-    "thorough": dict(matrix_stride=1, enum={2: 1, 3: 1, 4: 4}, random=500, max_nodes=(5, 14), max_runs=96,
-                     throw_every=1, running_stride=2, deadline=440.0),
+                  throw_every=3, throw_k=8, throw_runs=6, running_stride=4, deadline=36.0),
+    "thorough": dict(matrix_stride=2, enum={2: 1, 3: 1, 4: 8}, random=300, max_nodes=(5, 14), max_runs=48,
+                     throw_every=2, throw_k=6, throw_runs=6, running_stride=4, deadline=440.0),
     "tiny": dict(special_stride=60, matrix_stride=211, enum={2: 4}, random=4, max_nodes=(5, 8), max_runs=8,
-                 throw_every=4, running_stride=1, deadline=20.0),
+                 throw_every=4, throw_k=8, throw_runs=4, running_stride=1, deadline=20.0),
 }
 
 
@@ -1673,12 +1691,12 @@ def _run_suspended(col, progs, cfg, mode, t0):
             col.count("programs_with_sampled_vectors")
         # throw edges: resume suspension k with throw(E1)
         if pi % cfg["throw_every"] == 0:
-            for k in range(min(max_susp[0], 8)):
+            for k in range(min(max_susp[0], cfg["throw_k"])):
                 def visit_t(R, prefix):
                     if R.threw:
                         col.count("branch_vectors")
                         col.count("throw_runs")
-                explore(prog, k, max(4, cfg["max_runs"] // 4), None, on_suspend, visit_t)
+                explore(prog, k, cfg["throw_runs"], None, on_suspend, visit_t)
     return truncated
 
 
@@ -1737,12 +1755,12 @@ def leg_running(tier="quick", seed=0, variants=VARIANTS, progs=None, shard=None,
             if not complete:
                 col.count("programs_with_sampled_vectors")
             if pi % cfg["throw_every"] == 0:
-                for k in range(min(max_susp[0], 8)):
+                for k in range(min(max_susp[0], cfg["throw_k"])):
                     def visit_t(R, prefix):
                         if R.threw:
                             col.count("branch_vectors")
                             col.count("throw_runs")
-                    explore(prog, k, max(4, cfg["max_runs"] // 4), on_probe, None, visit_t)
+                    explore(prog, k, cfg["throw_runs"], on_probe, None, visit_t)
     return col.result(wall=round(time.time() - t0, 2), truncated=truncated, tier=tier, seed=seed)
 
 
@@ -1994,6 +2012,14 @@ def main(argv=None):
     ap.add_argument("--shard", default=None, help="k/n: only programs k, k+n, ... of the shuffled corpus")
     a = ap.parse_args(argv)
     shard = tuple(int(x) for x in a.shard.split("/")) if a.shard else None
+    try:  # a broken analysis can loop while allocating: fail fast instead of exhausting the machine
+        import resource
+        lim = 6 * 1024 ** 3
+        soft, hard = resource.getrlimit(resource.RLIMIT_AS)
+        if soft == resource.RLIM_INFINITY or soft > lim:
+            resource.setrlimit(resource.RLIMIT_AS, (lim, hard))
+    except Exception:
+        pass
     if a.deadline:
         TIERS[a.tier] = dict(TIERS[a.tier], deadline=a.deadline)
     out = {}
